@@ -127,9 +127,33 @@ theorem dataframe_roundtrip {R} (cat : Catalog R) (h : ∀ e ∈ cat.events, e.i
       rw [storeId_of_le (h _ he)]
   · cases events <;> simp
 
+/-- nothing is de-duplicated (ASCII): a catalog that holds one event `n` times — identical in all six fields — is
+    written as `n` records and loads as `n` events, all equal to that event. -/
+theorem ascii_keeps_duplicates {F R} (c : FloatCodec F) (cat : Catalog R) (n : Nat) (e : Event)
+    (hev : cat.events = List.replicate n e) (he : EventOk e ∧ EventCodecOk c e) (writeHeader writeEmpty : Bool)
+    (old : List (Line F)) :
+    (loadAscii c (writeAscii c cat writeHeader writeEmpty false old)).map Prod.fst = .ok (List.replicate n e) := by
+  rw [ascii_roundtrip c cat writeHeader writeEmpty old
+    (fun y hy => by rw [hev] at hy; rw [List.eq_of_mem_replicate hy]; exact he)]
+  simp [Except.map, hev]
+
+/-- nothing is de-duplicated (DataFrame, dict): the number of events is unchanged, whatever repetitions the list has -/
+theorem dataframe_dict_keep_count {R D} (toD : R → D) (fromD : D → R) (hreg : ∀ r, fromD (toD r) = r) (cat : Catalog R)
+    (h : ∀ e ∈ cat.events, e.id.length ≤ 256) :
+    (fromDataframe (R := R) (toDataframe cat)).events.length = cat.events.length
+      ∧ (fromDict fromD (toDict toD cat)).events.length = cat.events.length := by
+  rw [(dataframe_roundtrip cat h).1, dict_roundtrip toD fromD hreg cat h]
+  exact ⟨rfl, rfl⟩
+
 /-- the hypotheses are satisfiable: the old failure instant, an id with delimiters, the identity codec -/
 example : EventOk { id := "a,b\" ;".toList, ms := -1097606850620, lat := -90, lon := 180, depth := 5, mag := 9/2 } := by
   refine ⟨by decide, by decide, by decide⟩
 example (e : Event) : EventCodecOk (F := Rat) { enc := id, dec := some } e := ⟨rfl, rfl, rfl, rfl⟩
+
+/-- catalog ids beyond 2^53 (not representable as a double) and at the ends of the int64 range are written as decimal
+    text and read back as the same integer (`parseInt?_intStr` holds for every integer; three concrete instances) -/
+example : parseInt? (intStr 9007199254740993) = some 9007199254740993 ∧
+    parseInt? (intStr 9223372036854775807) = some 9223372036854775807 ∧
+    parseInt? (intStr (-9223372036854775808)) = some (-9223372036854775808) := by decide +kernel
 
 end Persist
